@@ -89,3 +89,86 @@ def check_C01(tier, seed):
              "Lean trueCount/cellLoad vs the Python oracle, and true ≤ estimate ≤ collision bound on the real estimates.",
         assumptions=["hash is a parameter of the theorems: columns are observed from a probe sketch", "uint64 overflow of n_added (> 2^64) outside the model"],
     )
+
+
+# =============================================================================== C02 HyperLogLog state
+
+
+def check_C02(tier, seed):
+    import slice_hll
+
+    res = Result("C02", tier, seed)
+    res.rule = ("random histories of add/update/dict/add_ngram/merge/self-merge on 1-5 HyperLogLog sketches (p 7..16, seeds incl. 0, 2^32-1, 2^32, 2^63, 2^64-1), "
+                "keys from the NUL/high-byte alphabet plus constructed 8-byte FastHash preimages for chosen rank (1..64-p+1) and register index (0, m-1, random); registers after "
+                "every op compared with the Lean model (which computes FastHash itself); oracle: registers and query() equal those of a fresh real sketch fed the distinct keys, "
+                "and registers = max rank per index under an independent Python reference hash; plus exhaustively all orderings × all 2-way partitions (with duplicates) of key sets "
+                "of size ≤ 4. Distinct by case content; non-trivial when two keys share a register or a rank ≥ 20 is reached.")
+    lean = lean_check("C02")
+    rng = rng_for(seed, "C02")
+    slice_hll.run_slice(res, rng, tier, 250 if tier == QUICK else 4000, 25 if tier == QUICK else 300)
+    slice_hll.exhaustive_small(res, rng)
+
+    def search():
+        r2 = Result("C02", tier, seed)
+        slice_hll.run_slice(r2, rng_for(seed, "C02/search"), "thorough", 100000, 200 if tier == QUICK else 600)
+        res.notes.append(f"search ran {r2.evaluations} extra cases")
+        return r2.oracle_failures
+
+    return finish(res, lean, "proof", search, _sig,
+                  assumptions=["theorems hold for an arbitrary hash H : K → Nat; the concrete FastHash is tied by C11 and by this full-stack slice"])
+
+
+def rerun_C02(fail):
+    import slice_hll
+
+    case = fail["case"]
+    if "ops" not in case:
+        return True
+    return bool(slice_hll.run_case(case)[1])
+
+
+# =============================================================================== C11 hashes
+
+
+def check_C11(tier, seed):
+    import slice_hash
+
+    res = Result("C11", tier, seed)
+    res.rule = ("keys of length 0..257 (every len%8 / len%4 tail × 0,1,≥2 blocks), bytes biased to 00/7f/80/ff, produced plainly / by slicing at offsets 0..8 / bytes(bytearray) / "
+                "concatenation; seeds {0,1,2^32-1,2^32,2^63,2^64-1,random}; real fasthash64/fasthash32/murmur3 compared with Lean Impl.* (constants generated from the source) "
+                "and Lean Ref.* (published constants); model-independent oracle = Python transcription of fasthash.c / MurmurHash3_x86_32. Distinct by "
+                "(len%8, blocks≥1, blocks≥2, len%4, last byte, construction, min(len,70)).")
+    lean = lean_check("C11")
+    rng = rng_for(seed, "C11")
+    slice_hash.run_slice(res, rng, tier, 25 if tier == QUICK else 240)
+    if tier != QUICK:
+        # a second interpreter with another PYTHONHASHSEED must agree on a sample
+        import subprocess
+        code = ("import sys,warnings;warnings.simplefilter('ignore');sys.path.insert(0,%r);import numpy as np;from sketchnu import fasthash64;"
+                "print([int(fasthash64(bytes(range(i)),np.uint64(7))) for i in range(40)])" % core.REPO)
+        outs = []
+        for hs in ("1", "12345"):
+            p = subprocess.run([sys.executable, "-c", code], capture_output=True, text=True, env={**os.environ, "PYTHONHASHSEED": hs}, timeout=300)
+            outs.append(p.stdout.strip().splitlines()[-1] if p.stdout.strip() else p.stderr[-200:])
+        from slice_hash import ref_fasthash64
+        want = str([ref_fasthash64(bytes(range(i)), 7) for i in range(40)])
+        for o in outs:
+            if o != want:
+                res.oracle_failures.append({"what": "fasthash64 differs in a second interpreter process", "key": "", "seed": 7, "fn": "fasthash64"})
+        res.count("second_interpreter_runs", 2)
+
+    def search():
+        r2 = Result("C11", tier, seed)
+        slice_hash.run_slice(r2, rng_for(seed, "C11/search"), "thorough", 200)
+        res.notes.append(f"search ran {r2.evaluations} extra keys")
+        return r2.oracle_failures
+
+    return finish(res, lean, "proof", search, _sig,
+                  assumptions=["Ref.* is a hand transcription of the published C sources, anchored by the C++-derived vectors of tests/test_hashes.py and the standard Murmur3 vectors (decide)",
+                               "little-endian platform"])
+
+
+def rerun_C11(fail):
+    import slice_hash
+
+    return slice_hash.rerun(fail)
